@@ -2,7 +2,7 @@
     Property theorems only, about the per-window methods REGENERATED from the source (Gen/GenScalars.v;
     translation validated by correspondence K5).  [eql] = elementwise equality of rationals. *)
 From Coq Require Import QArith Qabs List Bool String.
-From IV Require Import QL Dist Ecdf QListFacts GenUtils GenScalars RatLS C16_compose C03_proofs C02_proofs C04_proofs C01_proofs C09_proofs RatLS_proofs.
+From IV Require Import QL Dist Ecdf QListFacts GenUtils GenScalars RatLS C16_compose C03_proofs C02_proofs C04_proofs C01_proofs C09_proofs RatLS_proofs Affine Affine_debiasers Driver Driver_rel ApplyLocation_units.
 Import ListNotations.
 Open Scope Q_scope.
 
@@ -83,3 +83,45 @@ Theorem C02_qdm_abs_shift_equivariant : forall (P : Type) (D : dist P) t cth (fo
 Proof. exact @qdm_abs_shift_equivariant. Qed.
 Print Assumptions C02_qdm_abs_shift_equivariant.
 
+
+(** ---- the empirical-CDF methods: a constant c added to every value of cm_future changes every debiased
+    value by exactly c ([ARL 1 c out out'] : out'_i == out_i + c), for the step and the interpolated ECDF and
+    all nine inverse-CDF methods (Proofs/Affine.v, Affine_debiasers.v) *)
+Theorem C02_cdft_trend_preserving : forall em im, em = step_function \/ em = linear_interpolation ->
+  forall c obs hist fut, obs <> [] -> hist <> [] -> fut <> [] ->
+  exists out out', cdft_apply_mapping "additive" em im obs hist fut = Some out /\
+                   cdft_apply_mapping "additive" em im obs hist (map (fun x => x + c) fut) = Some out' /\ Affine.ARL 1 c out out'.
+Proof. exact Affine_debiasers.cdft_trend_preserving. Qed.
+Print Assumptions C02_cdft_trend_preserving.
+
+Theorem C02_qm_nonparametric_detrended_trend_preserving : forall (P : Type) (D : dist P) thr c obs hist fut,
+  obs <> [] -> hist <> [] -> fut <> [] ->
+  exists out out', qm_apply_on_window "additive" "nonparametric" D thr obs hist fut = Some out /\
+                   qm_apply_on_window "additive" "nonparametric" D thr obs hist (map (fun x => x + c) fut) = Some out' /\ Affine.ARL 1 c out out'.
+Proof. exact @Affine_debiasers.qm_nonparam_trend_preserving. Qed.
+Print Assumptions C02_qm_nonparametric_detrended_trend_preserving.
+
+Theorem C02_qdm_trend_preserving_both_ecdfs : forall (P : Type) (D : dist P) em t cth, em = step_function \/ em = linear_interpolation ->
+  forall c f fo fh,
+  exists out out', qdm_apply_debiasing_steps em t "absolute" D false cth f fo fh = Some out /\
+                   qdm_apply_debiasing_steps em t "absolute" D false cth (map (fun x => x + c) f) fo fh = Some out' /\ Affine.ARL 1 c out out'.
+Proof. exact @Affine_debiasers.qdm_abs_trend_preserving. Qed.
+Print Assumptions C02_qdm_trend_preserving_both_ecdfs.
+
+(** ---- through apply_location with a running window over the year: a constant added to cm_future alone
+    passes through the window loop, for any per-window method with that property (instantiated at
+    LinearScaling); side condition: each window that is used holds data of all three series *)
+Theorem C02_trend_preserved_through_windows : forall (W : list Q -> list Q -> list Q -> list Q) c,
+  (forall o o' h h' f f', o <> [] -> h <> [] -> f <> [] -> Affine.ARL 1 0 o o' -> Affine.ARL 1 0 h h' -> Affine.ARL 1 c f f' -> Affine.ARL 1 c (W o h f) (W o' h' f')) ->
+  forall L S dobs dhist dfut obs hist fut, Driver_rel.windows_nonempty L S dfut dobs dhist dfut obs hist fut ->
+  ApplyLocation_units.same_in_other_unit 1 c (Driver.driver_rw Q L S dobs dhist dfut obs hist fut W)
+                                             (Driver.driver_rw Q L S dobs dhist dfut obs hist (map (fun x => x + c) fut) W).
+Proof. exact ApplyLocation_units.trend_preserved_through_windows. Qed.
+Print Assumptions C02_trend_preserved_through_windows.
+
+Theorem C02_linear_scaling_apply_location : forall c L S dobs dhist dfut obs hist fut,
+  Driver_rel.windows_nonempty L S dfut dobs dhist dfut obs hist fut ->
+  ApplyLocation_units.same_in_other_unit 1 c (Driver.driver_rw Q L S dobs dhist dfut obs hist fut (ApplyLocation_units.W_ls "additive"))
+                                             (Driver.driver_rw Q L S dobs dhist dfut obs hist (map (fun x => x + c) fut) (ApplyLocation_units.W_ls "additive")).
+Proof. exact ApplyLocation_units.ls_trend_preserved_through_windows. Qed.
+Print Assumptions C02_linear_scaling_apply_location.
